@@ -3,9 +3,10 @@
 // exhausts memory on the hash containers), so the real rules are executed on every member of a stated finite family:
 //   atoms   t0.c0 = 1, t0.c0 = 2, t1.c0 = 2, t1.c0 = 3, t0.c0 = t1.c0, TRUE, NULL
 //   shapes  atom | OR(x, y) | AND(x, y) | OR(x, y, z)  with x, y, z atoms or AND/OR of two atoms  (depth <= 2)
-//   rules   DistributiveOrRewrite, UnnestConjunctionRewrite, JoinFilterOrRewrite, ConstFold,
-//           ExpressionRewriter::apply_rewrites (all of them in the order the optimizer applies them) followed by
-//           JoinFilterOrRewrite (as for Filter / ArbitraryJoin)
+//   rules   DistributiveOrRewrite, UnnestConjunctionRewrite, JoinFilterOrRewrite, ConstFold each on its own, then the
+//           optimizer's pipeline stage by stage (LikeRewrite, ConstFold, UnnestConjunction, DistributiveOr = what
+//           ExpressionRewriter::apply_rewrites does, checked to be that composition) followed by JoinFilterOrRewrite
+//           (as for Filter / ArbitraryJoin)
 //   rows    every (t0.c0, t1.c0) in {NULL, 1, 2, 3}^2
 // Specification: a small interpreter of AND / OR / comparison / literal in Kleene logic, written from the SQL
 // definition.  The rewritten expression must evaluate to the same TRUE / FALSE / NULL on every row.
@@ -138,49 +139,104 @@ fn family() -> Vec<Expression> {
     out
 }
 
-fn all_then_join_filter(e: Expression) -> Result<Expression> {
-    let e = ExpressionRewriter::apply_rewrites(e)?;
-    JoinFilterOrRewrite::rewrite(e)
+fn conjuncts(e: &Expression) -> Vec<&Expression> {
+    match e {
+        Expression::Conjunction(c) if c.op == ConjunctionOperator::And => c.expressions.iter().collect(),
+        other => vec![other],
+    }
+}
+
+/// The input class of the recorded finding (known_findings.json): somewhere in `e` there is an OR one of whose branches
+/// consists only of conjuncts shared by every branch, e.g. `a OR (a AND b)` -- by absorption the OR equals the shared
+/// conjuncts.  Computed from the INPUT expression only, independently of the rule under test.
+fn has_absorbed_or_branch(e: &Expression) -> bool {
+    let mut found = false;
+    if let Expression::Conjunction(c) = e {
+        if c.op == ConjunctionOperator::Or && c.expressions.len() >= 2 {
+            let first = conjuncts(&c.expressions[0]);
+            let common: Vec<&Expression> = first.into_iter().filter(|x| c.expressions[1..].iter().all(|ch| conjuncts(ch).contains(x))).collect();
+            if !common.is_empty() && c.expressions.iter().any(|ch| conjuncts(ch).iter().all(|x| common.contains(x))) {
+                found = true;
+            }
+        }
+        for ch in &c.expressions {
+            found = found || has_absorbed_or_branch(ch);
+        }
+    }
+    found
+}
+
+struct Tally {
+    checked: usize,
+    changed: usize,
+    known: usize,
+    first_known: Option<String>,
+}
+
+/// Check `rule` on `e` over every row; a mismatch panics unless `known_class` (then it is tallied).
+fn check_rule(name: &str, rule: fn(Expression) -> Result<Expression>, e: &Expression, known_class: bool, t: &mut Tally) -> Expression {
+    let dom = [None, Some(1i64), Some(2), Some(3)];
+    let got = match rule(e.clone()) {
+        Ok(g) => g,
+        Err(err) => panic!("{name} failed on {e}: {err}"),
+    };
+    if &got != e {
+        t.changed += 1;
+    }
+    for a in dom {
+        for b in dom {
+            let Some(want) = eval(e, [a, b]) else { continue };
+            let Some(have) = eval(&got, [a, b]) else { continue };
+            if have != want {
+                let msg = format!("{name} changes the value of an expression: `{e}` is {want:?} on (t0.c0, t1.c0) = ({a:?}, {b:?}), rewritten `{got}` is {have:?}");
+                if known_class {
+                    t.known += 1;
+                    if t.first_known.is_none() {
+                        t.first_known = Some(msg);
+                    }
+                    return got;
+                }
+                panic!("{msg}");
+            }
+            t.checked += 1;
+        }
+    }
+    got
 }
 
 #[test]
 fn c02_expr_rewrites__truth_value_preserved__nat() {
-    let rules: [(&str, fn(Expression) -> Result<Expression>); 6] = [
-        ("DistributiveOrRewrite", DistributiveOrRewrite::rewrite),
-        ("UnnestConjunctionRewrite", UnnestConjunctionRewrite::rewrite),
-        ("JoinFilterOrRewrite", JoinFilterOrRewrite::rewrite),
-        ("ConstFold", ConstFold::rewrite),
-        ("ExpressionRewriter::apply_rewrites", ExpressionRewriter::apply_rewrites),
-        ("apply_rewrites + JoinFilterOrRewrite", all_then_join_filter),
-    ];
-    let dom = [None, Some(1i64), Some(2), Some(3)];
     let fam = family();
-    let mut checked = 0usize;
-    let mut changed = 0usize;
+    let mut t = Tally { checked: 0, changed: 0, known: 0, first_known: None };
     for e in &fam {
-        for (name, rule) in &rules {
-            let got = match rule(e.clone()) {
-                Ok(g) => g,
-                Err(err) => panic!("{name} failed on {e}: {err}"),
-            };
-            if &got != e {
-                changed += 1;
-            }
-            for a in dom {
-                for b in dom {
-                    let want = eval(e, [a, b]).expect("family is inside the interpreted fragment");
-                    let Some(have) = eval(&got, [a, b]) else { continue };
-                    assert!(
-                        have == want,
-                        "{name} changes the value of an expression: `{e}` is {want:?} on (t0.c0, t1.c0) = ({a:?}, {b:?}), rewritten `{got}` is {have:?}"
-                    );
-                    checked += 1;
-                }
-            }
+        assert!(eval(e, [None, None]).is_some(), "family is inside the interpreted fragment");
+        // every rule on its own
+        check_rule("DistributiveOrRewrite", DistributiveOrRewrite::rewrite, e, has_absorbed_or_branch(e), &mut t);
+        check_rule("UnnestConjunctionRewrite", UnnestConjunctionRewrite::rewrite, e, false, &mut t);
+        check_rule("JoinFilterOrRewrite", JoinFilterOrRewrite::rewrite, e, false, &mut t);
+        check_rule("ConstFold", ConstFold::rewrite, e, false, &mut t);
+        // the optimizer's pipeline, stage by stage (each stage on the previous stage's output) ...
+        let e1 = check_rule("LikeRewrite", LikeRewrite::rewrite, e, false, &mut t);
+        let e2 = check_rule("ConstFold (after LikeRewrite)", ConstFold::rewrite, &e1, false, &mut t);
+        let e3 = check_rule("UnnestConjunctionRewrite (after ConstFold)", UnnestConjunctionRewrite::rewrite, &e2, false, &mut t);
+        let e4 = check_rule("DistributiveOrRewrite (after UnnestConjunction)", DistributiveOrRewrite::rewrite, &e3, has_absorbed_or_branch(&e3), &mut t);
+        let e5 = check_rule("JoinFilterOrRewrite (after apply_rewrites)", JoinFilterOrRewrite::rewrite, &e4, false, &mut t);
+        // ... and as the one call the optimizer makes: if it is not the composition above, it is checked directly
+        let all = ExpressionRewriter::apply_rewrites(e.clone()).unwrap();
+        if all != e4 {
+            check_rule("ExpressionRewriter::apply_rewrites", ExpressionRewriter::apply_rewrites, e, false, &mut t);
         }
+        let _ = e5;
     }
-    assert!(checked > 100_000, "checked only {checked}");
-    assert!(changed > 500, "rules rewrote only {changed} expressions");
+    assert!(t.checked > 100_000, "checked only {}", t.checked);
+    assert!(t.changed > 500, "rules rewrote only {} expressions", t.changed);
+    if t.known > 0 {
+        panic!(
+            "KNOWN-SHAPE DistributiveOrRewrite absorption: {} expressions with an OR branch made only of conjuncts shared by every branch (`a OR (a AND b)`) change value; first: {}",
+            t.known,
+            t.first_known.unwrap()
+        );
+    }
 }
 
 include!("/verif/build/kani-gen/expr_rewrite.playback.rs");
